@@ -23,7 +23,7 @@ GenBatch == [i \in 1..(1 + (rng % MaxBatch)) |-> GenOp(D(i * i + 1) + i)]
 \* a positioned iterator mostly keeps walking
 Walking == it.open /\ it.pos \notin {AtEnd, Unknown} /\ rng % 4 # 0
 GenNext ==
-  /\ rng' = (75 * rng + 74) % 65537
+  /\ \E d \in 0..3 : rng' = (75 * (rng + d) + 74) % 65537
   /\ IF Walking THEN ItNext
      ELSE
      \/ Set(Nth(KeysSeq, rng), Nth(ValsSeq, D(13)))
